@@ -247,3 +247,14 @@ def run(facts, rep, ctx):
     from . import round2
     round2.ps1(facts, rep)
 
+
+_run_before_round4 = run
+
+
+def run(facts, rep, ctx):
+    """rules added after the third seeding round (rules/round4.py)"""
+    _run_before_round4(facts, rep, ctx)
+    from . import round4
+    if ctx.get('flavor') != 'nochk':
+        round4.po9(facts, rep)
+
